@@ -7,6 +7,7 @@ import (
 	"log/slog"
 	"math"
 	"math/big"
+	"strconv"
 	"strings"
 
 	sat4 "github.com/goblimey/go-ntrip/rtcm/type_msm4/satellite"
@@ -26,7 +27,7 @@ type rangeObs struct {
 	wavelength                  float64
 	constellation               string
 	sig                         uint
-	text7, text4                string
+	text7, text4, text7i        string
 }
 
 // documented carrier frequencies (Hz) per constellation and signal id — the oracle's own table
@@ -46,6 +47,18 @@ func closeTo(got float64, want *big.Rat) bool {
 		return math.Abs(got) < 1e-300
 	}
 	return math.Abs(got-w) <= 8*math.Abs(w)*math.Pow(2, -52)
+}
+
+// textShows: one of the numbers in the text equals v to three decimals.
+func textShows(text string, v float64) bool {
+	isNum := func(r rune) bool { return r >= '0' && r <= '9' || r == '.' || r == '-' || r == '+' || r == 'e' || r == 'E' }
+	for _, tok := range strings.FieldsFunc(text, func(r rune) bool { return !isNum(r) }) {
+		x, err := strconv.ParseFloat(tok, 64)
+		if err == nil && math.Abs(x-v) <= 0.00051+math.Abs(v)*1e-15 {
+			return true
+		}
+	}
+	return false
 }
 
 func ratOf(f float64) *big.Rat { return new(big.Rat).SetFloat64(f) }
@@ -84,6 +97,8 @@ func init() {
 		o.phase7, o.phase4 = c7.PhaseRange(), c4.PhaseRange()
 		o.rateMS, o.dop = c7.PhaseRangeRate(), c7.PhaseRangeRateDoppler()
 		o.text7, o.text4 = c7.String(), c4.String()
+		c7i := sig7.New(o.sig, s7, o.d7, o.p7, 1, false, 30, o.rd, o.wavelength, slog.LevelInfo)
+		o.text7i = c7i.String()
 		cyc7, cyc4, dop := "-", "-", "-"
 		if o.wavelength != 0 {
 			cyc7, cyc4, dop = f64fields(o.phase7), f64fields(o.phase4), f64fields(o.dop)
@@ -93,7 +108,7 @@ func init() {
 	}
 	props["C08"] = &Prop{
 		Rule: "op range <whole> <frac> <fine7> <phase7> <rate> <ratedelta> <fine4> <phase4> <constellation> <signal>: whole 0..254 and 255; fractional 0,1,1023,random; every fine field at its minimum " +
-			"('invalid'), min+1, -1, 0, 1, max, random; 4 constellations (+1 without wavelengths) x 32 signal ids; scaled integers compared with the model; range in metres, phase range in cycles (MSM4, MSM7), rate in m/s and Doppler in Hz compared BIT FOR BIT with the exact binary64 model; all floats with exact rational arithmetic " +
+			"('invalid'), min+1, -1, 0, 1, max, random; 4 constellations (+1 without wavelengths) x 32 signal ids; scaled integers compared with the model; range in metres, phase range in cycles (MSM4, MSM7), rate in m/s and Doppler in Hz compared BIT FOR BIT with the exact binary64 model; all floats with exact rational arithmetic; every valid value must appear to three decimals among the numbers of the cell's readable line (both MSM7 layouts, MSM4) " +
 			"to 8 ulp, wavelengths with an independent table; non-trivial = valid rough range; distinct = distinct op line",
 		Gen: func(c *Ctx, emit func(class, op string)) {
 			r := c.Rng
@@ -236,6 +251,29 @@ func init() {
 			}
 			if o.rate == -8192 && !strings.Contains(o.text7, "invalid") {
 				return "invalid rough rate not shown as 'invalid'"
+			}
+			// the readable form reports those same values: each one appears, to three decimals, among
+			// the numbers of the cell's line (both layouts of MSM7, and MSM4)
+			if o.w != 255 {
+				type shown struct {
+					name string
+					v    float64
+					in   []string
+				}
+				list := []shown{{"MSM7 range in metres", o.rangeM7, []string{o.text7, o.text7i}}, {"MSM4 range in metres", o.rangeM4, []string{o.text4}}}
+				if o.wavelength > 0 {
+					list = append(list, shown{"MSM7 phase range in cycles", o.phase7, []string{o.text7, o.text7i}}, shown{"MSM4 phase range in cycles", o.phase4, []string{o.text4}})
+				}
+				if o.rate != -8192 && o.wavelength > 0 {
+					list = append(list, shown{"range rate in m/s", o.rateMS, []string{o.text7, o.text7i}}, shown{"Doppler in Hz", o.dop, []string{o.text7, o.text7i}})
+				}
+				for _, sh := range list {
+					for _, text := range sh.in {
+						if !textShows(text, sh.v) {
+							return fmt.Sprintf("%s is %v but the display does not show it: %q", sh.name, sh.v, text)
+						}
+					}
+				}
 			}
 			return ""
 		},
